@@ -2,7 +2,7 @@ use rusty_common::{AtPos, CaseInsensitiveString, Position, Positioned};
 use rusty_linter::core::{LinterContext, ScopeName};
 use rusty_linter::names::Names;
 use rusty_parser::{
-    ArrayDimension, Assignment, BareName, BuiltInFunction, BuiltInSub, CaseBlock,
+    ArrayDimension, AsBareName, Assignment, BareName, BuiltInFunction, BuiltInSub, CaseBlock,
     ConditionalBlock, DimList, DimType, DimVar, DimVars, Expression, ExpressionPos,
     ExpressionType, FileHandle, FunctionImplementation, GlobalStatement,
     HasExpressionType, IfBlock, Name, Parameter, Program, Statement, Statements,
@@ -550,15 +550,32 @@ impl InstructionGenerator {
                     ..
                 },
             body,
-            ..
+            params,
+            is_static,
         } = function_implementation;
 
         let qualifier = function_name
             .qualifier()
             .expect("Expected qualified function name");
-        self.mark_current_subprogram(ScopeName::Function(function_name), pos);
+        // a parameter may have the name of the function: then it is the result variable
+        let result_is_parameter = params
+            .iter()
+            .any(|param| param.element.as_bare_name() == function_name.as_bare_name());
+        self.mark_current_subprogram(ScopeName::Function(function_name.clone()), pos);
         // set default value
         self.push(Instruction::AllocateBuiltIn(qualifier), pos);
+        if is_static && !result_is_parameter {
+            // the variables of a STATIC function outlive the call: without this, a call that
+            // does not assign the function name would return the result of an earlier call
+            self.push(
+                Instruction::VarPathName(RootPath {
+                    name: function_name,
+                    shared: false,
+                }),
+                pos,
+            );
+            self.push(Instruction::CopyAToVarPath, pos);
+        }
         self.subprogram_body(body, pos);
     }
 
